@@ -5,7 +5,7 @@
 set -u
 name=$1
 prop=${name%%_*}
-src=/tmp/seed_out/$name
+src=${SEED_SRC:-/tmp/seed_out}/$name
 wt=/tmp/vw_$name
 out=/verif/seeded/$name
 [ -f $src/patch.diff ] || { echo "no patch for $name"; exit 3; }
@@ -16,7 +16,7 @@ res_apply=ok
 git apply $src/patch.diff || res_apply=FAILED
 demo_with=$(PYTHONPATH=$wt /venv/bin/python -W ignore $src/demo.py 2>&1 | tail -3; echo "exit=${PIPESTATUS[0]}")
 suite=$(PYTHONPATH=$wt /venv/bin/python -m pytest -q -p no:cacheprovider --timeout=900 --continue-on-collection-errors -n 8 2>&1 | tail -1)
-if echo "$suite" | grep -q failed; then
+if echo "$suite" | grep -qE "[0-9]+ failed"; then
   # re-run once sequentially for flaky hypothesis deadlines under load
   failed=$(PYTHONPATH=$wt /venv/bin/python -m pytest -q -p no:cacheprovider --timeout=900 --continue-on-collection-errors -n 8 2>&1 | grep -E "^FAILED" | sed 's/^FAILED //; s/ - .*//')
   suite="$suite | rerun-failed: $(echo $failed)"
